@@ -380,8 +380,14 @@ impl<T: fmt::Debug, const N: usize> fmt::Debug for FixedCircularQueue<T, N> {
 
         let head = self.head.load(Ordering::Acquire);
         let tail = self.tail.load(Ordering::Acquire);
+        let count = self.count.load(Ordering::Acquire);
 
-        if head <= tail {
+        if count == 0 {
+            return list.finish();
+        }
+
+        // head == tail with count > 0 means the ring is full (wrapped), not empty
+        if head < tail {
             for i in head..tail {
                 // SAFETY: All elements between head and tail are initialized
                 list.entry(unsafe { self.buffer[i].assume_init_ref() });
